@@ -12,7 +12,7 @@ from ..loop import PAUSE, Cancel
 from ..runner import Outcome
 from ..tools import lib
 from .c10 import Model
-from .common import COMPONENTS_BASE, run_sim, new_sim, finish_outcome
+from .common import set_interrupts, COMPONENTS_BASE, run_sim, new_sim, finish_outcome
 
 PID = "C11"
 LEVEL = "exploration"
@@ -62,7 +62,7 @@ def execute(st, ctx):
     ch = st.scenario
     sc = gen(ch)
     sim = new_sim(st, interrupts=False)
-    sim.interrupt_den = (0, 0, 5, 2)[sc.interrupt]
+    set_interrupts(sim, (0, 0, 5, 2)[sc.interrupt])
     L = lib()
     invs = []  # [serial, key, start_seq, end_seq|None, status]
     in_flight = {}
